@@ -182,6 +182,26 @@ func checkC10(c *Ctx) (int, error) {
 			cases = append(cases, cs)
 		}
 	}
+	// the compressor's position inside its sliding buffer (WriterMech: idx, end) is the same at two
+	// consecutive Flushes although data arrived in between: a Flush at buffer position p in
+	// [2W, 2W+258] (the buffer slides by p-W at the next Write), then exactly p-W more bytes, Flush
+	// again, W more bytes, Flush, one byte, Close
+	nAlias := 0
+	for si, set := range accelSettings {
+		for _, dp := range []int{0, 1, 2 + rng.Intn(255), 257, 258} {
+			if c.Tier != "thorough" && (dp+si)%2 == 1 {
+				continue
+			}
+			W := set.Window
+			p := 2*W + dp
+			cl := []string{"text", "runs", "uniform"}[(si+dp)%3]
+			cs := &WCase{ID: fmt.Sprintf("C10-alias-%d-%d-%d", si, W, dp), Set: set, Tag: settingTag(set) + "|alias",
+				Data: DataSpec{Class: cl, Seed: rng.Int63n(1 << 30), Len: p + (p - W) + W + 1},
+				Ops:  []Op{{Op: "W", N: p}, {Op: "F"}, {Op: "W", N: p - W}, {Op: "F"}, {Op: "W", N: W}, {Op: "F"}, {Op: "W", N: 1}, {Op: "C"}}}
+			cases = append(cases, cs)
+			nAlias++
+		}
+	}
 	for _, cs := range cases {
 		c.ev.nontrivial(histString(cs.Ops) + "|" + cs.Tag)
 	}
@@ -197,6 +217,7 @@ func checkC10(c *Ctx) (int, error) {
 		}
 	}
 	// (the targeted cases run at every acceleration level, the histories round-robin)
+	deep += nAlias
 	run := c.spreadArch(cases[:len(cases)-deep], false)
 	run = append(run, c.spreadArch(cases[len(cases)-deep:], true)...)
 	return c.writerRun("c10", run, true)
@@ -571,6 +592,22 @@ func checkC12(c *Ctx) (int, error) {
 			n2 := pick(rng, []int{70000, 140000, 200000})
 			cs := &WCase{ID: fmt.Sprintf("C12-grown-%d-%d", si, ci), Set: set, Tag: settingTag(set) + "|grown-" + cl, Cmp: "C12",
 				Data: DataSpec{Class: cl, Seed: rng.Int63n(1 << 30), Len: maxInt(n1, n2)},
+				Ops:  []Op{{Op: "W", N: n1}, {Op: []string{"C", "F"}[ci%2]}, {Op: "R"}, {Op: "W", N: n2}, {Op: "C"}}}
+			cs.Shadow = []Op{{Op: "W", N: n2}, {Op: "C"}}
+			cases = append(cases, cs)
+			nGrown++
+			c.ev.nontrivial(cs.Tag)
+		}
+	}
+	// the same with a first stream of another kind of data than the second (what the compressor learned
+	// about the first stream's data - statistics, skip heuristics - must not reach the second), the first
+	// stream ending at and up to 16 KiB behind a multiple of 32 KiB
+	for si, set := range accelSettings {
+		for ci, pr := range [][2]string{{"uniform", "period"}, {"uniform", "text"}, {"zeros", "uniform"}, {"text", "nearuniform"}, {"uniform", "runs"}} {
+			n1 := 32768*(1+rng.Intn(3)) + pick(rng, []int{0, 1, 5000, 6464, 16000})
+			n2 := pick(rng, []int{20000, 70000, 140000})
+			cs := &WCase{ID: fmt.Sprintf("C12-cross-%d-%d", si, ci), Set: set, Tag: settingTag(set) + "|cross-" + pr[0] + "-" + pr[1], Cmp: "C12",
+				Data: DataSpec{Class: pr[1], Pre: pr[0], Seed: rng.Int63n(1 << 30), Len: maxInt(n1, n2), Period: 1 + rng.Intn(64)},
 				Ops:  []Op{{Op: "W", N: n1}, {Op: []string{"C", "F"}[ci%2]}, {Op: "R"}, {Op: "W", N: n2}, {Op: "C"}}}
 			cs.Shadow = []Op{{Op: "W", N: n2}, {Op: "C"}}
 			cases = append(cases, cs)
